@@ -145,6 +145,9 @@ class C13:
             yield ['e', d]
         for d in E2E_ML:
             yield ['m', d]
+        # the list as the command-line tools read it from a file, used for two documents in a row
+        for d in E2E_DOCS:
+            yield ['f', d]
 
     def judge(self, case):
         kind, text = case
@@ -181,7 +184,34 @@ class C13:
                 changed += 1
         return {'viol': viol, 'out': outs, 'nt': changed > 0, 'tr': 1}
 
+    def judge_file(self, doc):
+        import os
+        from yalafi import tex2txt
+        from .. import core
+        viol = []
+        outs = []
+        for ri, r in enumerate(RULES):
+            fn = os.path.join(core.scratch_dir(), 'repl13.txt')
+            with open(fn, 'w') as f:
+                f.writelines(l + '\n' for l in r)
+            lst = tex2txt.read_replacements(fn, encoding='utf-8')
+            base = impl.run_filter(doc, {'pack': '*', 'lang': 'en'})
+            if base.kind != 'ok':
+                continue
+            exp = model(base.result[0], list(base.result[1]), r)
+            for nr in (1, 2):
+                got = impl.run_filter(doc, {'pack': '*', 'lang': 'en', 'repl': lst})
+                g = (got.result[0], list(got.result[1])) if got.kind == 'ok' else None
+                outs.append(g and g[0])
+                if g != (exp[0], exp[1]):
+                    viol.append({'clause': 'a replacement list read from a file is applied to every document it is used for',
+                                 'sig': 'C13:file-list:use%d' % nr, 'detail': {'doc': doc, 'rules': r, 'use': nr, 'got': g, 'expected': exp}})
+                    break
+        return {'viol': viol[:2], 'out': outs, 'nt': True, 'tr': 1}
+
     def judge_e2e(self, kind, doc):
+        if kind == 'f':
+            return self.judge_file(doc)
         viol = []
         outs = []
         for ri, r in enumerate(RULES):
